@@ -169,6 +169,10 @@ func (r *Run) DistinctH(set string, h uint64) bool {
 	return true
 }
 
+// AddDistinct adds n members to the named set that the caller has already deduplicated in a key space
+// disjoint from every other contribution (e.g. the states of one configuration), without storing them.
+func (r *Run) AddDistinct(set string, n int) { r.Add("+distinct_"+set, int64(n)) }
+
 func (r *Run) SetSize(set string) int {
 	r.mu.Lock()
 	defer r.mu.Unlock()
@@ -624,8 +628,19 @@ func (r *Run) Finish() {
 	for k, v := range r.counters {
 		cov[k] = v
 	}
+	sizes := map[string]int{}
 	for k, m := range r.sets {
-		cov["distinct_"+k] = len(m)
+		sizes[k] = len(m)
+	}
+	for k, v := range r.counters {
+		// AddDistinct: members counted by the harness itself (key spaces known to be disjoint)
+		if set, ok := strings.CutPrefix(k, "+distinct_"); ok {
+			sizes[set] += int(v)
+			delete(cov, k)
+		}
+	}
+	for k, n := range sizes {
+		cov["distinct_"+k] = n
 	}
 	if _, ok := cov["evaluations"]; !ok {
 		cov["evaluations"] = int64(0)
@@ -633,8 +648,8 @@ func (r *Run) Finish() {
 	if _, ok := cov["distinct_nontrivial"]; !ok {
 		cov["distinct_nontrivial"] = 0
 	}
-	if m, ok := r.sets["state"]; ok {
-		cov["states"] = len(m)
+	if n, ok := sizes["state"]; ok {
+		cov["states"] = n
 	}
 	cov["rule"] = r.rule
 	smp := r.samples
